@@ -450,3 +450,16 @@ Fixpoint spec_history (rs : list residue) (ops : list op) (its : list (option na
   | [] => []
   | o :: rest => let '(its', ob) := spec_op rs o its in ob :: spec_history rs rest its'
   end.
+
+(* reference semantics of composition: how many residues of the list carry a given name *)
+Fixpoint counter_get (name : string) (c : list (string * nat)) : nat :=
+  match c with
+  | [] => 0%nat
+  | (m, v) :: t => if String.eqb name m then v else counter_get name t
+  end.
+Definition has_name (name : string) (r : residue) : bool :=
+  match r with
+  | [] => false
+  | a :: _ => String.eqb name (a_resname a)
+  end.
+Definition count_name (name : string) (rs : list residue) : nat := length (filter (has_name name) rs).
